@@ -189,7 +189,8 @@ class ContractMixin(CallMixin):
         return VBool(self.forall(binders, body) if name == "forall" else self.exists(binders, body))
 
     def fresh_binder(self, st, n, ty):
-        return z3.Const(f"{n}!{next(self.ctx.counter)}", self.key_sort(ty))
+        st.nfresh += 1
+        return z3.Const(f"{n}!s{st.nfresh}", self.key_sort(ty))
 
     def mark_nosplit(self, st, binders):
         st.ghost["__nosplit__"] = tuple(st.ghost.get("__nosplit__", ())) + tuple(b.get_id() for b in binders)
@@ -328,7 +329,8 @@ class ContractMixin(CallMixin):
 
     def apply_contract(self, st, contract, args, kw, node):
         """Modular call: check requires, havoc modifies, assume ensures."""
-        env = self.bind_params(st, contract.node, args, kw, st.frame)
+        rfi = front.find_function(contract.qualname)
+        env = self.bind_params(st, rfi.node if rfi is not None else contract.node, args, kw, st.frame)
         f = Frame(None, env, None, spec=True)
         f.contract, f.mode, f.callsite = contract, "check", self.where(node, st)
         saved_def = st.ghost.get("__deferred__")
@@ -439,7 +441,8 @@ class ContractMixin(CallMixin):
         ty = self.ref_type(st, ref)
         if ty is None:
             raise Unsupported(f"cannot determine type for havoc of {ref!r}")
-        n = next(self.ctx.counter)
+        st.nfresh += 1
+        n = f"s{st.nfresh}"
         new = self.mk_abstract(ty, f"havoc!{n}", tuple(self.cur_binders(st)))
         if not ref.path:
             st.heap[ref.root] = new
